@@ -14,28 +14,44 @@ EXTENDS JsonValue
 (* decoded once per alternative and the two results are reported as "conflicting values".           *)
 (* F-C06-6: the multipart decoder finds a part's schema only among the schema's own properties and  *)
 (* those of allOf members: a part declared inside oneOf/anyOf alternatives is "undefined".          *)
+(* F-C06-7: the JSON decoder reads the FIRST JSON value of the body and ignores whatever follows it: a body that is a JSON   *)
+(* value followed by more text ({"n":1} x, {"n":1}{"n":1}) is not JSON at all, yet it is accepted as the first value.           *)
+(* F-C06-8: the opt-in ZipFileBodyDecoder appends its whole 256-byte read buffer for every read instead of the bytes read: the     *)
+(* text of a small archive member comes out padded with NUL bytes to 256 characters.                                              *)
+(* F-C06-9: the urlencoded decoder refuses every body whose schema has an object-valued property ("unsupported schema"), although   *)
+(* the per-property decoder reads a deepObject field (o[a]=4) -- it does so when the same schema sits below a typed allOf.           *)
 HasKeyK(v, k) == \E i \in DOMAIN v.k : v.k[i] = k
 Class(line, bad) ==
    LET c == line.c IN
-   IF c.part # "decode" THEN "none"
+   IF c.part = "decode" /\ c.family = "zip" /\ "decoded_value" \in bad /\ "dec" \in DOMAIN line /\ line.dec.err = "ok" /\ "val" \in DOMAIN line.dec
+      /\ line.dec.val.t = "str" /\ Len(line.dec.val.cs) = 256 /\ SubSeq(line.dec.val.cs, 1, Len(c.v.cs)) = c.v.cs
+   THEN "zip_member_padded_to_read_buffer"
+   ELSE IF c.part = "decode" /\ c.family = "form" /\ c.schema = "S8" /\ "wrap" \in DOMAIN c /\ c.wrap = "plain" /\ HasKeyK(c.v, "o")
+           /\ bad \subseteq {"conforming_body_accepted", "decoded_value"} /\ line.verdict = "other" /\ "dec" \in DOMAIN line /\ line.dec.err = "other"
+   THEN "form_object_property_unsupported"
+   ELSE IF c.part = "malformed" /\ c.family = "json" /\ c.kind \in {"trailing", "two"} /\ bad = {"violating_body_rejected"} /\ line.verdict = "ok"
+   THEN "json_text_after_value_ignored"
+   ELSE IF c.part # "decode" THEN "none"
    ELSE IF c.family = "form" /\ c.schema \in {"S4", "S4a"} /\ HasKeyK(c.v, "ref") /\ Get(c.v, "ref").t = "num"
            /\ bad \subseteq {"conforming_body_accepted", "decoded_value"} /\ line.verdict = "other"
            /\ "dec" \in DOMAIN line /\ line.dec.err = "other"
    THEN "form_composition_conflicting_values"
-   ELSE IF c.family = "multipart" /\ c.schema \in {"S4", "S4a"} /\ bad \subseteq {"conforming_body_accepted", "decoded_value"}
+   ELSE IF c.family = "multipart" /\ (c.schema \in {"S4", "S4a"} \/ ("wrap" \in DOMAIN c /\ c.wrap \in {"anyOfT", "oneOfT"})) /\ c.v.k # <<>> /\ bad \subseteq {"conforming_body_accepted", "decoded_value"}
            /\ line.verdict = "parse" /\ "dec" \in DOMAIN line /\ line.dec.err = "parse"
    THEN "multipart_composition_part_undefined"
    ELSE IF c.family = "form" /\ HasKeyK(c.v, "u3") /\ bad \subseteq {"violating_body_rejected", "decoded_value"} /\ line.verdict = "ok"
            /\ "val" \in DOMAIN line.dec /\ ~HasKeyK(line.dec.val, "u3")
    THEN "form_untyped_property_dropped"
-   ELSE IF c.family \in {"form", "multipart"} /\ c.setDefaults /\ c.schema = "S3" /\ ~HasKeyK(c.v, "ro")
+   ELSE IF c.family \in {"form", "multipart", "yaml"} /\ c.setDefaults /\ c.schema = "S3" /\ ~HasKeyK(c.v, "ro")
            /\ "conforming_body_accepted" \in bad /\ "reason" \in DOMAIN line /\ line.reason = "rewriting failed"
    THEN "form_body_default_rewriting_failed"
    ELSE IF c.family = "form" /\ bad = {"violating_body_rejected"} /\ line.verdict = "ok"
-           /\ \E i \in DOMAIN c.v.k : (c.v.k[i] \in {"n", "u1"} /\ c.v.v[i].t = "str")
+           /\ \E i \in DOMAIN c.v.k : (c.v.k[i] \in {"n", "u1", "b", "f"} /\ c.v.v[i].t = "str")
+                                      \/ (c.v.k[i] = "n" /\ c.v.v[i].t = "num" /\ c.v.v[i].q % 4 # 0)          \* 4.5 for the integer
                                       \/ (c.v.k[i] = "l" /\ \E j \in DOMAIN c.v.v[i].a : c.v.v[i].a[j].t = "str")
+                                      \/ (c.v.k[i] = "o" /\ HasKeyK(c.v.v[i], "a") /\ Get(c.v.v[i], "a").t = "str")
    THEN "form_unparsable_field_dropped"
-   ELSE IF c.family = "multipart" /\ HasNum(c.v) /\ bad \subseteq {"conforming_body_accepted", "decoded_value"}
+   ELSE IF c.family = "multipart" /\ ~("partCT" \in DOMAIN c /\ c.partCT = "json") /\ HasNum(c.v) /\ bad \subseteq {"conforming_body_accepted", "decoded_value"}
            /\ line.verdict \in {"schema", "ok"}
    THEN "multipart_text_part_not_typed"
    ELSE "none"
